@@ -147,7 +147,7 @@ def install_more(I):
         n = I.concretize(n, 'resize n'); ln = s_len(s)
         if n > ln:
             s_reserve(s, n); p = s_ptr(s)
-            for k in range(ln, n): I.store(p + k, i8, c)
+            I.memset(p + ln, c, n - ln)
         s_setlen(s, n)
     M[S + '6resizeEmc'] = resize
     M[S + '7reserveEm'] = lambda I_, s, n: s_reserve(s, I.concretize(n, 'reserve'))
